@@ -74,12 +74,12 @@ CHECKS = {
          "quiescence is logical (server goroutine blocked in Read on empty input, forced flush done, background hook counters balanced); client flags carrying the server-reserved bit are excluded as the property states",
          "conservation monitor over hooked allocator state and published counters at logical quiescence, per-command attribution; race detector + AddressSanitizer on the same workloads"),
  "C04": ("exploration",
-         "Concurrent histories recorded at the HStore boundary with a global logical clock, self-describing values and poison-on-free; per key two independent checkers (version rules, porcupine with a sequential register model); background flusher and hint dumper loops and rotations run beside the clients; schedule reach from seeded yield/sleep injection at the store's hook points and 8 deterministic park/release orderings over append, tree update, flush write, buffer detach, buffer free and read-by-position; the same workloads under -race (reports classified by racing source line against a list of protected objects) and -asan.",
+         "Concurrent histories recorded at the HStore boundary with a global logical clock, self-describing values and poison-on-free; per key two independent checkers (version rules, porcupine with a sequential register model); background flusher and hint dumper loops and rotations run beside the clients; schedule reach from seeded yield/sleep injection at the store's hook points and 9 deterministic park/release orderings over append, publication to the write buffer, tree update, flush write, buffer detach, buffer free and read-by-position; the four buffer counters must be zero at quiescence after every history and ordering; the same workloads under -race (reports classified by racing source line against a list of protected objects) and -asan.",
          "DESIGN.md sections 4 (C04) and 5",
          "Go scheduler not controlled (random-schedule cases are statistical; evidence reports distinct schedule signatures); C-memory races only via asan/poison",
          "history recording + offline linearizability checking (rules + porcupine), hook-based schedule perturbation and park/release, race detector, AddressSanitizer"),
  "C05": ("exploration",
-         "C04 recorder and checkers with one GC pass beside the clients (legal range, merge on/off, optional cancel at a file-boundary hook), final read-back, then restart with an index subset removed and a read-back against the last acknowledged write per key; 36 deterministic placements of a client set/delete/get at GC's per-record steps for the same key (GC goroutine parked at the hook).",
+         "C04 recorder and checkers with one GC pass beside the clients (legal range, merge on/off, optional cancel at a file-boundary hook), final read-back, then restart with an index subset removed and a read-back against the last acknowledged write per key; 36 deterministic placements of a client set/delete/get at GC's per-record steps for the same key (GC goroutine parked at the hook) and 2 orderings in which the periodic hint dumper is parked inside a chunk that the pass is about to clear.",
          "DESIGN.md section 4 (C05)",
          "read errors while a position is being relocated are counted, not judged (documented 'omit it' behaviour); the hint dumper loop is left out of the race build (GC vs dumper data races are listed in DESIGN.md as observed, outside the property)",
          "history recording + offline linearizability checking, deterministic park/release placements at GC hook points, race detector, AddressSanitizer"),
